@@ -69,6 +69,11 @@ func runC01case(base string, c c01case, timeout time.Duration, env *c08env) c01o
 		rounds = 2
 	}
 	for round := 0; round < rounds; round++ {
+		if round == 1 && c.seed%2 == 0 {
+			// the second fetch may come with another chunk size (the sender chooses it per run):
+			// resume metadata recorded for the first geometry must not be applied to the second
+			cfg.chunkSize = c.cs*2 + 1
+		}
 		if c.realQUIC {
 			q := runQUIC(src, out, cfg, c.conns, env)
 			if q.setup != nil {
@@ -184,8 +189,16 @@ func runTransfers(cfg config, rep *hx.Report, prop string, n int, quicShare int)
 	} else {
 		defer env.close()
 	}
+	hangs := 0
 	for i, c := range c01cases(rng, n, quicShare) {
+		if hangs >= 4 || tooManyHangs(rep) {
+			rep.Count("skipped-after-hangs")
+			continue
+		}
 		o := runC01case(base, c, 8*time.Second, env)
+		if o.setup == nil && (!o.res.sendDone || !o.res.recvDone) {
+			hangs++
+		}
 		rep.Evaluations++
 		kind := "memnet:mock-like"
 		if c.quicLike {
